@@ -36,11 +36,17 @@ ALPHABET = {
     "mut =fn": ("i32", "mut", 0, FN),
     "ref =fn": ("i32", "ref", 0, FN),
     # single-binding destructurings whose binding is a raw identifier (keyword / non-keyword)
+    # a binding that starts with a non-ASCII lower-case letter is a binding like any other
+    "N(é)": ("N", "destr", 0, "épaisseur"),
+    # an all-underscore binding (no letter at all: `__` could equally be a constant, any fresh name is acceptable for it)
+    "N(__)": ("N", "destr", 0, "__"),
+    # two bindings, one of them non-ASCII: no single binding to take the name from
+    "N2(a,λ)": ("N2", "destr", 1, ("vx", "λ")),
     "N(r#kw)": ("N", "destr", 0, "r#type"),
     "&r#id": ("refi", "destr", 0, "r#v_raw"),
 }
 IMPL_ALPHABET_EXTRA = {"=__impl": ("i32", "plain", 0, "__impl"), "N(=__impl)": ("N", "destr", 0, "__impl"), "=__impl_": ("i32", "plain", 0, "__impl_")}
-SPECIAL_ONCE = {"N(_u)", "N(=fn_)", "mut =fn", "ref =fn", "N(r#kw)", "&r#id", "r#=arg0", "=fn", "=fn_", "=fn__", "=arg0", "=arg1", "=_arg1", "N(=fn)", "r#=fn"}
+SPECIAL_ONCE = {"N(é)", "N(__)", "N(_u)", "N(=fn_)", "mut =fn", "ref =fn", "N(r#kw)", "&r#id", "r#=arg0", "=fn", "=fn_", "=fn__", "=arg0", "=arg1", "=_arg1", "N(=fn)", "r#=fn"}
 
 
 def valid(lst):
@@ -49,7 +55,7 @@ def valid(lst):
     for s in lst:
         sp = ALPHABET[s][3]
         if sp:
-            names.append(sp)
+            names += list(sp) if isinstance(sp, tuple) else [sp]
     return len(names) == len(set(names))
 
 
@@ -63,7 +69,7 @@ def make_fn(lst, no_deps, is_async=False, name=FN):
         ty = TYPES[tkey]
         if form == "destr":
             nb = ty.pats[pi][1]
-            names = [special] if special else ["v%d%s" % (i, "ab"[k]) for k in range(nb)]
+            names = (list(special) if isinstance(special, tuple) else [special]) if special else ["v%d%s" % (i, "ab"[k]) for k in range(nb)]
             p = Param(ty, "destr", names, pi)
         elif form == "wild":
             p = Param(ty, "wild", [])
@@ -89,7 +95,7 @@ def expected_names(lst, f):
             out.append(None if n == unraw(f.name) else (("r#" + n) if form == "raw" else n))
         elif form == "destr" and len(p.names) == 1:
             n = p.names[0]
-            out.append(None if unraw(n) == unraw(f.name) else n)
+            out.append(None if unraw(n) == unraw(f.name) or not n.strip("_") else n)
         else:
             out.append(None)
     return out
@@ -151,6 +157,10 @@ def check_names(c, rep, pinned=None):
     if unraw(f["name"]) in [n[2:] if n.startswith("r#") else n for n in names]:
         rep.violation(c.id, "shadows-fn", "a generated parameter shadows the function `%s`: %s (list %s)" % (f["name"], names, lst), pinned=pinned)
         return
+    for own, got, sym in zip(c.meta.get("bindings", []), names, lst):
+        if got in own:
+            rep.violation(c.id, "name-taken-from-one-of-several", "pattern `%s` binds %s: it has to get a generated name, got `%s`" % (sym, own, got), pinned=pinned)
+            return
     for want, got, sym in zip(c.meta["expected"], names, lst):
         if want is not None and want != got and want not in names:
             # the prescribed name is free but was not used
@@ -278,6 +288,7 @@ def build_cases(lists, label, variants, fn_name=FN):
             c.meta["list"] = list(lst)
             c.meta["spec"] = {"name": f.name, "no_deps": no_deps}
             c.meta["expected"] = expected_names(lst, f)
+            c.meta["bindings"] = [(p_.names if p_.form == "destr" and len(p_.names) >= 2 else []) for p_ in f.params]
             c.meta["nontrivial"] = any(ALPHABET[s][1] in ("wild", "destr", "mut", "ref", "raw") or ALPHABET[s][3] for s in lst)
             cases.append(c)
     return cases
@@ -306,7 +317,7 @@ def run(tier, seed):
     variants = [(False, False, "fn"), (True, False, "fn")]
     cases = build_cases(lists, "e", variants) + build_cases(sorted(extra), "s", variants)
     # the same, with the function itself named by a raw identifier (`fn r#foo`), for the lists that mention its name
-    FN_SYMS = {s_ for s_, v in ALPHABET.items() if v[3] and v[3].replace("r#", "").rstrip("_") == FN}
+    FN_SYMS = {s_ for s_, v in ALPHABET.items() if isinstance(v[3], str) and v[3].replace("r#", "").rstrip("_") == FN}
     named = [l for l in lists if any(s_ in FN_SYMS for s_ in l)]
     cases += build_cases(named, "r", [(False, False, "fn")], fn_name="r#" + FN)
     rep.extra["lists_with_raw_fn_name"] = len(named)
